@@ -44,3 +44,11 @@ def find(hyps, concl_terms, names, rel=1e-4):
             m = s.model()
             return t, {n: m.eval(zv(n), model_completion=True) for n in names}
     return None
+
+def equiv_tol(tl1, tl2, names, extra1=(), extra2=()):
+    """tl1 (with extra hyps) => each term of tl2 within tol, and vice versa; returns None or description"""
+    b = find([conj(tl1)]+list(extra1), tl2.terms, names)
+    if b: return ('1=>2', b)
+    b = find([conj(tl2)]+list(extra2), tl1.terms, names)
+    if b: return ('2=>1', b)
+    return None
